@@ -213,7 +213,9 @@ def check_stream(vi, spec, do_commit, do_finalize):
 VI = int(os.environ.get("VT_VENDOR", "0"))
 SLOTS = slots_for(VENDORS[VI][0])
 N = count(SLOTS)
-NC = N * 4
+# quick: both flags on / both off (every flag pair is covered for all hardware by wrapper.symbolic-flags and apply.groups)
+FLAGS = [0, 3] if rt.TIER == "quick" else [0, 1, 2, 3]
+NC = N * len(FLAGS)
 LO, HI = rt.shard_range(NC)
 
 
@@ -224,7 +226,7 @@ def h_stream(case: int) -> bool:
     """
     c = pick(case, HI, LO)
     with NoTracing():
-        ti, fl = c // 4, c % 4
+        ti, fl = c // len(FLAGS), FLAGS[c % len(FLAGS)]
         spec = unrank(SLOTS, ti)
         ok, detail, kind, nt = check_stream(VI, spec, bool(fl & 1), bool(fl & 2))
         rt.record({"vendor": VI, "tree_idx": ti, "flags": fl, "tier": rt.TIER}, ok, [VI, ti, fl] if nt else None, detail=detail,
@@ -413,7 +415,8 @@ def plan(tier):
     q = tier == "quick"
     obs = [dict(name="wrapper.symbolic-flags", func="h_wrapper", shards=1, timeout=250 if q else 900)]
     for vi, (name, _) in enumerate(VENDORS):
-        obs.append(dict(name="stream[%s]" % name, func="h_stream", shards=8, timeout=280 if q else 1500, env={"VT_VENDOR": vi}))
+        obs.append(dict(name="stream[%s]" % name, func="h_stream", shards=16 if name == "huawei" else 8, timeout=280 if q else 1500,
+                        env={"VT_VENDOR": vi}))
     obs.append(dict(name="made.by.make_patch", func="h_made", shards=4, timeout=280 if q else 900))
     obs.append(dict(name="apply.groups", func="h_groups", shards=1, timeout=200))
     obs.append(dict(name="twin", func="h_twin", shards=1, timeout=100, expect="refuted"))
